@@ -283,7 +283,9 @@ func check(c Case) (o ev.Outcome) {
 				}
 			}
 			if !found {
-				m.fail("filed-under-name", "not-filed", "%s %q at %s accepted but no filed module refers back to it", s.Keyword, s.Argument, s.Location())
+				// the bare name is held by another accepted text of that name (a later revision): this
+				// module is not reachable through the registry, so its tree cannot be observed here
+				o.OutOfClaim = "accepted module of a name whose registry entry denotes another revision (not observable; C13 decides the binding)"
 				return
 			}
 		}
